@@ -56,6 +56,16 @@ def gen_cases(ctx):
                 mk(3, rand_circuit(rng, 3, rng.randrange(0, 3), us, allow=("op",)) + [g] + rand_circuit(rng, 3, rng.randrange(0, 2), us, allow=("op",)))
         mk(3, [{"g": "param", "kind": rng.choice(["RX", "RY", "RZ", "P"]), "vals": [float2bits(bad)] * 3, "ts": [1], "cs": [0]}])
     for c in cases[n0:]: c["refuse"] = True
+    # Pauli time evolution: documented as having no OpenQASM form yet (the export stops with "not yet implemented", C05's stated
+    # exception); should some of them be exported after all, the program must still mean exp(-i c t P), coefficient included
+    n0 = len(cases)
+    for nf in (1, 1, 1, 2, 3):
+        for coef in (1.0, 0.5, -1.0, 2.5):
+            n = 3
+            ops = [[q, rng.choice("XYZ")] for q in rng.sample(range(n), nf)]
+            evo = {"g": "evo", "term": {"ops": ops, "coef": [float2bits(coef), float2bits(0.0)]}, "dt": float2bits(rng.choice([0.3, -0.7, 1.1]))}
+            mk(n, rand_circuit(rng, n, rng.randrange(0, 3), us, allow=("op",)) + [evo] + rand_circuit(rng, n, rng.randrange(0, 2), us, allow=("op",)))
+    for c in cases[n0:]: c["evo"] = True
     # longer programs (33 .. 70 statements, odd and even counts): statement ORDER matters for non-commuting gates, and a lowering that
     # works in blocks or in parallel only shows on circuits of this length
     for L in ((33, 41, 64, 57) if not ctx.thorough() else (33, 35, 41, 57, 64, 65, 97, 129)):
@@ -190,6 +200,8 @@ def judge(ctx, cases, results, codes):
     kf = [k for k in known if k.get("property") == "C13" and k.get("class") == "controlled-unitary-global-phase"]
     for c, r, code in zip(cases, results, codes):
         b = brief(c)
+        if c.get("evo") and (r.get("r") == "err" or (r.get("r") == "panic" and "not yet implemented" in r.get("msg", ""))):
+            stats["time_evolution_not_exported"] = stats.get("time_evolution_not_exported", 0) + 1; continue
         if r.get("r") in ("panic", "crash"):
             ctx.violations.append(("export panicked: %s" % r.get("msg", ""), {"case": c, "brief": b})); continue
         if c.get("refuse"):
@@ -203,7 +215,7 @@ def judge(ctx, cases, results, codes):
         if code is None: continue
         for bit, nm in ((1, "parsed"), (2, "program_runs"), (4, "state_equal"), (8, "state_equal_up_to_global_phase")):
             if code & bit: stats[nm] += 1
-        rt = roundtrip_ok(c, r)
+        rt = roundtrip_ok(c, r) or bool(c.get("evo"))
         if rt: stats["angles_round_trip"] += 1
         if controlled_custom(c): stats["controlled_custom_unitary_cases"] += 1
         if not (code & 1) or not (code & 2):
